@@ -333,6 +333,49 @@ def responder_case(ck, rng, i, forced=None):
         ck.count('responder.refused_although_possible')      # allowed for partial overlaps; counted
 
 
+def corner_networks(ck, i):
+    """Two real endpoints, tunnels whose protected networks are of the OTHER family than the gateways, all-zero networks (::/0 ... ::/32, 0.0.0.0/0), single hosts and
+    /31, /127 networks. Every kernel SA both ends install has exactly the configured networks as its selector: family, addresses and prefix lengths."""
+    import socket as _so
+    table = [(False, 'fd00:a::/64', 'fd00:b::/64'), (True, '10.1.0.0/24', '10.2.0.0/16'), (True, '2001:db8:a::/48', '::/0'), (False, '10.1.0.0/24', '0.0.0.0/0'),
+             (True, '::/16', '2001:db8:b::/64'), (False, 'fd00:a::/64', '::/0'), (True, '::/32', '::/8'), (False, '10.1.0.4/31', '10.2.0.9/32'),
+             (True, '2001:db8:a::2/127', '2001:db8:b::1/128'), (False, '0.0.0.0/1', '128.0.0.0/1'), (True, '8000::/1', '::/1'), (True, '0.0.0.0/0', '10.9.0.0/16')]
+    v6, a_net, b_net = table[i % len(table)]
+    kw = dict(v6=v6, mode='tunnel', a_subnet=a_net, b_subnet=b_net, ip_proto=('any', 'tcp')[i // len(table) % 2], a_port=0, b_port=0 if i % 2 else 443, ipsec_proto='ah' if i % 5 == 4 else 'esp')
+    sim, a, b = S.make_pair(ck.seed * 31 + i, **kw)
+    sim.case = {'family': 'corner-networks', 'conf': kw}
+    first = a if i % 2 == 0 else b
+    sim.acquire(first, 0)
+    sim.drain()
+    an, bn = ipaddress.ip_network(a_net), ipaddress.ip_network(b_net)
+    fam = _so.AF_INET if an.version == 4 else _so.AF_INET6
+    ck.count('corner_networks.handshakes')
+    ck.nontrivial(('corner-networks', i % len(table), kw['ip_proto'], kw['b_port']))
+    seen = 0
+    for ep, mine, theirs in ((a, an, bn), (b, bn, an)):
+        for r in ep.kernel.requests:
+            if not (r['msg'] and r['msg']['name'] == 'NEWSA'):
+                continue
+            ks = r['msg']['sa']['sel']
+            outb = r['msg']['sa']['saddr'] == str(ep.addrs[0])
+            want_s, want_d = (mine, theirs) if outb else (theirs, mine)
+            seen += 1
+            ck.count('corner_networks.kernel_selectors_checked')
+            try:
+                got_s = ipaddress.ip_network((ks['saddr'], ks['prefixlen_s']), strict=False)
+                got_d = ipaddress.ip_network((ks['daddr'], ks['prefixlen_d']), strict=False)
+            except ValueError:
+                got_s = got_d = None
+            if ks['family'] != fam or (got_s, got_d) != (want_s, want_d):
+                ck.violation(f"kernel-selector-differs-from-the-configured-networks:{'family' if ks['family'] != fam else 'networks'}",
+                             {'kernel_selector': ks, 'configured': (str(want_s), str(want_d)), 'endpoint': ep.name}, sim.case)
+                return
+    if seen < 4:
+        ck.violation('tunnel-between-configured-corner-networks-not-established', {'newsa': seen, 'states': [x.state.name for x in a.ctl.ike_sas]}, sim.case)
+    else:
+        ck.count('corner_networks.established')
+
+
 def initiator_case(ck, rng, vi, any_proto=False):
     mode = 'transport' if vi % 2 else 'tunnel'
     # (second pass: an entry that combines protocol ANY with a port, which the daemon installs as written: the port is part of the offer all the same)
@@ -657,6 +700,9 @@ def run(ck):
             if ck.mine(vi + rep):
                 initiator_case(ck, ck.rng('init', vi, rep), vi)
                 initiator_case(ck, ck.rng('init-any', vi, rep), vi, any_proto=True)
+    for i in range(48 if not thorough else 960):
+        if ck.mine(i):
+            corner_networks(ck, i)
     for i in range(40 if not thorough else 4000):
         if ck.mine(i):
             rekey_case(ck, ck.rng('rekey', i), i)
@@ -670,6 +716,7 @@ def run(ck):
 
 def verdict(ck):
     c = ck.counters
+    ck.floor('tunnels between corner networks (other family than the gateways, all-zero networks, /31, /127 ...) established and compared', c['corner_networks.established'], 36)
     ck.floor('exhaustive selector pairs', c['subset.pairs'], 3 * 32400)
     ck.floor('network round trips', c['network.roundtrips'], 2000)
     ck.floor('responder installs judged', c['responder.installed'], 60)
